@@ -17,6 +17,7 @@ package nutsdb
 import (
 	"encoding/binary"
 	"errors"
+	"io"
 )
 
 var (
@@ -96,6 +97,14 @@ func (df *DataFile) ReadAt(off int) (e *Entry, err error) {
 		return nil, nil
 	}
 
+	// The sizes come from the file: after a torn write or a crash they can be arbitrary bytes (up to
+	// 3 x 4 GiB). A record that claims to extend beyond the end of the file cannot be read anyway
+	// (the reads below would end with io.EOF); say so before allocating buffers of that size.
+	if size := df.size(); size >= 0 &&
+		int64(off)+DataEntryHeaderSize+int64(meta.bucketSize)+int64(meta.keySize)+int64(meta.valueSize) > size {
+		return nil, io.EOF
+	}
+
 	// read bucket
 	off += DataEntryHeaderSize
 	bucketBuf := make([]byte, meta.bucketSize)
@@ -131,6 +140,19 @@ func (df *DataFile) ReadAt(off int) (e *Entry, err error) {
 	}
 
 	return
+}
+
+// size returns the current size of the underlying file or mapping, -1 if it is not known.
+func (df *DataFile) size() int64 {
+	switch m := df.rwManager.(type) {
+	case *FileIORWManager:
+		if st, err := m.fd.Stat(); err == nil {
+			return st.Size()
+		}
+	case *MMapRWManager:
+		return int64(len(m.m))
+	}
+	return -1
 }
 
 // WriteAt copies data to mapped region from the b slice starting at
